@@ -20,15 +20,15 @@ import (
 const rtAlias = "__simrt"
 
 type fileCtx struct {
-	fset     *token.FileSet
-	pkgRel   string
-	fn       string
-	ord      int
-	labelN   int
-	usedRT   bool
-	usedSync bool
-	nSelect  int
-	nYield   int
+	fset        *token.FileSet
+	pkgRel      string
+	fn          string
+	ord         int
+	labelN      int
+	usedRT      bool
+	usedSync    bool
+	nSelect     int
+	nYield      int
 	unrewritten []string
 }
 
@@ -472,8 +472,8 @@ func (c *fileCtx) selectStmt(sel *ast.SelectStmt) []ast.Stmt {
 	}
 	intLit := func(i int) ast.Expr { return &ast.BasicLit{Kind: token.INT, Value: strconv.Itoa(i)} }
 
-	var pre []ast.Stmt          // hoisted evaluations, in source order
-	comms := make([]ast.Stmt, n) // the communication of each case, over hoisted operands
+	var pre []ast.Stmt            // hoisted evaluations, in source order
+	comms := make([]ast.Stmt, n)  // the communication of each case, over hoisted operands
 	post := make([][]ast.Stmt, n) // bindings to perform before the body
 	for i, cc := range comm {
 		switch st := cc.Comm.(type) {
